@@ -5,6 +5,7 @@ package main
 import (
 	"fmt"
 	"sync/atomic"
+	"time"
 
 	"verif/lib/mdiffh"
 	"verif/mc"
@@ -20,6 +21,10 @@ type tcase struct {
 	Alpha []string `json:"alphabet,omitempty"` // default: a b c d
 }
 
+// hugeLimit: the edit script of two files of tens of thousands of lines
+// takes seconds to minutes, not microseconds.
+const hugeLimit = 15 * time.Minute
+
 // lcase describes a long pair (mdiffh.LongPair) and a context size.
 type lcase struct {
 	N    int  `json:"lines"`
@@ -33,7 +38,11 @@ func checkLongCase(l lcase) *mc.Failure {
 	if l.Swap {
 		L, R = R, L
 	}
-	f := check(tcase{L, R, l.Ctx, al})
+	var limit time.Duration
+	if l.N > 5000 {
+		limit = hugeLimit
+	}
+	f := checkL(tcase{L, R, l.Ctx, al}, limit)
 	if f != nil {
 		if len(f.Msg) > 600 {
 			f.Msg = f.Msg[:600] + "..."
@@ -90,8 +99,12 @@ func ordered(cs []*mdiff.Chunk, strict bool, stage string) *mc.Failure {
 	return nil
 }
 
-func check(t tcase) *mc.Failure {
-	return mc.GuardT("chunks", t, func() *mc.Failure {
+func check(t tcase) *mc.Failure { return checkL(t, 0) }
+
+// checkL is check with its own hang limit (0: the default), for the cases
+// whose quadratic edit script takes seconds.
+func checkL(t tcase, limit time.Duration) *mc.Failure {
+	return mc.GuardTL("chunks", t, limit, func() *mc.Failure {
 		al := alphabet
 		if t.Alpha != nil {
 			al = t.Alpha
@@ -242,7 +255,7 @@ func main() {
 			return check(t)
 		},
 	}, mc.Harness{
-		Name: "chunks-long",
+		Name: "chunks-long", HangLimit: hugeLimit,
 		Explore: func(r *mc.Run) {
 			var cases []lcase
 			for _, n := range mc.Pick(r, []int{12, 40, 130, 300}, []int{12, 40, 130, 300, 1100, 2500}) {
@@ -251,6 +264,11 @@ func main() {
 						cases = append(cases, lcase{n, gap, ctx, false}, lcase{n, gap, ctx, true})
 					}
 				}
+			}
+			// line numbers and path lengths beyond 2^15 (and 2^16 in the thorough tier)
+			cases = append(cases, lcase{33000, 8000, 3, false}, lcase{33001, 9000, 1, false}, lcase{33001, 9000, 0, true})
+			if !r.Quick() {
+				cases = append(cases, lcase{65600, 20000, 3, false}, lcase{65601, 16000, 1, true})
 			}
 			var multi int64
 			mc.ParallelFor(len(cases), r.Workers, func(i int) {
@@ -263,7 +281,7 @@ func main() {
 			})
 			n := int64(len(cases))
 			r.AddEval(n, n, n, multi)
-			r.Rule("files of 12...300/2500 lines with an edit every gap+1 lines (gap 0...11: deletions, insertions, replacements of one or two lines, repeated lines, an insertion at the end), context 0...13 and the whole file, both directions; the same oracle as the short pairs; non-trivial = cases where the context leaves the chunks apart")
+			r.Rule("files of 12...300/2500 lines with an edit every gap+1 lines (gap 0...11: deletions, insertions, replacements of one or two lines, repeated lines, an insertion at the end), context 0...13 and the whole file, both directions; three files of 33000 lines (thorough: 65600) with a handful of edits, some beyond line 32768; the same oracle as the short pairs; non-trivial = cases where the context leaves the chunks apart")
 			r.Sample(lcase{130, 5, 3, false})
 		},
 		Replay: func(c mc.Case) *mc.Failure {
